@@ -851,11 +851,35 @@ def known_findings(ctx):
             ctx.known_finding(kf, "%s: %s" % (kf["id"], kf["text"]))
 
 
+ALLOC_RE = re.compile(r"[^_a-z](calloc|malloc|realloc|strdup|psf_open_tmpfile|peak_info_calloc|psf_cues_alloc|psf_instrument_alloc|broadcast_var_alloc|cart_var_alloc|gsm_create|psf_memdup)\s*\(")
+
+
+def site_census(ctx):
+    """evidence only: allocation calls per source file of the tree under test next to the rows of the site table (lean/SfModel/LedgerSites.lean)"""
+    from .. import build
+    lean = open(os.path.join(build.LEAN_DIR, "SfModel", "LedgerSites.lean")).read()
+    rows = {}
+    for m in re.finditer(r'⟨"([a-z0-9_]+\.c)"', lean):
+        rows[m.group(1)] = rows.get(m.group(1), 0) + 1
+    census = {}
+    src = os.path.join(build.REPO, "src")
+    for f in sorted(os.listdir(src)):
+        if not f.endswith(".c") or f.startswith(("test_", "ogg", "flac", "mpeg", "windows")):
+            continue
+        text = re.sub(r"/\*.*?\*/", "", open(os.path.join(src, f), errors="replace").read(), flags=re.S)
+        n = len(ALLOC_RE.findall(text))
+        if n or f in rows:
+            census[f] = {"allocation_calls_in_tree": n, "table_rows": rows.get(f, 0)}
+    ctx.notes["allocation_site_census"] = census
+    ctx.notes["allocation_files_without_a_table_row"] = sorted(f for f, v in census.items() if v["allocation_calls_in_tree"] and not v["table_rows"])
+
+
 def run(ctx):
     if getattr(ctx, "replay", None):
         return replay(ctx, ctx.replay)
     quick = ctx.tier == "quick"
     failed = ctx.lean_stage(modules_for("C16"))
+    site_census(ctx)
     ctx.run_regressions()
     known_findings(ctx)
     rng = ctx.rng
